@@ -167,7 +167,7 @@ func runC05(c *vc.Ctx) error {
 		"evaluations = reopen executions judged. A fault image is non-trivial when the fault position (cut offset, first missing sector, flipped bit) lies strictly inside a physical record frame; its fingerprint is (history, image ordinal, fault kind, type of the record hit, part of the record: len field / header / payload / padding / flipped field). " +
 		"distinct_nontrivial = number of distinct fingerprints (each stands for >= 1 distinct image; the raw number of inside-record images is images_cut_inside_record)."
 	c.Ev.Assume("Power loss is modelled by images: bytes written since the last fdatasync point may be missing sector-wise; whether fdatasync is really issued is not observable (optimizedFsync skips it on purpose for entries and snapshot markers; there only term/vote changes, Sync and Close count as durable points and the torn region spans several calls).")
-	c.Ev.Assume("Tears are applied to the newest one or two segment files that changed since the durable point; older segments are left intact. Directory metadata (rename, file creation) is assumed atomic and ordered as issued.")
+	c.Ev.Assume("Tears are applied to the newest one or two segment files that changed since the durable point; older segments are left intact. Directory metadata (rename, file creation) is assumed atomic and ordered as issued, and the head records of a segment (crc, metadata, hard-state copy) are assumed on disk once the segment is visible under its final name (true without optimizedFsync; with optimizedFsync cut() does not fdatasync them before the rename, a power loss there can leave a segment without head, which a later Open starting at that segment reports as crc mismatch or returns without metadata - not judged).")
 	c.Ev.Assume("A loud failure (error or panic from ValidSnapshotEntries/Open/ReadAll, Repair returning false) is always admissible; error rates per fault kind are reported, not judged. Bit flips that make the reader cut off synced records silently are allowed by the property text and counted in synced_records_dropped_by_corruption.")
 	c.Ev.Assume("Snapshot files are assumed present for every WAL marker (the node picks the newest marker returned by ValidSnapshotEntries).")
 
